@@ -56,6 +56,11 @@ ASSUMPTIONS = [
     "FullName/FamilyName/Weight with non-ASCII characters may be stored as given (Latin-1) or "
     "as an ASCII reduction",
     "typographic names (16/17) may be omitted individually where they repeat name ID 1 resp. 2",
+    "head.created is read from the stored bytes (fontTools' reader folds dates outside 1970..2040); "
+    "head.flags bit 1 is recomputed from the glyph data by the TrueType writer and is masked for "
+    "glyf flavours; in variable fonts with a registered 'wght' axis usWeightClass may equal the "
+    "axis default (varLib enforces the OpenType rule) - half of the variable cases use an "
+    "unregistered axis tag where the comparison is strict",
     "NOT CHECKED (no destination in the listed tables / destination not determined by the "
     "statement): year, note, macintoshFOND*, postscriptUniqueID, postscriptSlantAngle, "
     "postscriptDefaultCharacter, postscriptWindowsCharacterSet, postscriptDefaultWidthX/"
@@ -144,11 +149,23 @@ def gen(rng, idx, tier):
     r2 = rng.random()
     if r2 < 0.04:
         stratum = "psname_hazard"
-    elif r2 < 0.08 and compile_ == "otf":
-        stratum = "cff_unencodable"
+    elif r2 < 0.08:
+        stratum = "cff_unencodable" if compile_ == "otf" else "default"
+    elif r2 < 0.09:
+        stratum = "derived_out_of_range"
     info = G.gen_info(rng, cff_strings=(compile_ == "otf"),
                       name_hazard=(stratum == "psname_hazard"),
                       cff_unencodable=(stratum == "cff_unencodable"))
+    if stratum == "derived_out_of_range":
+        # every explicit value fits its own field, but a value DERIVED from them does not
+        if rng.random() < 0.5:
+            info["ascender"] = rng.randint(0, 200)
+            info["openTypeOS2TypoLineGap"] = -rng.randint(300, 2000)
+            info.pop("openTypeOS2WinAscent", None)
+        else:
+            info["italicAngle"] = rng.choice([0.5, -0.25, 1])
+            info["openTypeHheaCaretSlopeRun"] = rng.choice([1000, -2000, 3000])
+            info.pop("openTypeHheaCaretSlopeRise", None)
     case = {"kind": "static", "stratum": stratum, "compile": compile_, "lib": lib, "info": info}
     if compile_ == "otf":
         case["optimizeCFF"] = rng.choice([2, 2, 2, 0, 1])
@@ -479,6 +496,9 @@ def _cff_string(ctx, field, attr, how, src, got, ascii_codec):
     if not _printable_ascii(src) and isinstance(got, str) and got and _ascii_only(got):
         ctx.bump("cff_string_reduced_to_ascii")
         return
+    if got in (None, "") and not any(RI.ps_char_ok(c) for c in src):
+        ctx.bump("cff_string_reduced_to_nothing")   # nothing of the string survives in ASCII
+        return
     ctx.bad("explicit_value_lost" if how == "explicit" else "fallback_mismatch", table="CFF",
             field=field, attr=attr, how=how, got=got, expected=src)
 
@@ -596,6 +616,27 @@ def cff_unencodable_strings(ref):
     return out
 
 
+FIELD_RANGE = {"hhea": (-32768, 32767), "vhea": (-32768, 32767), "post": (-32768, 32767)}
+UNSIGNED_FIELDS = {"usWinAscent", "usWinDescent", "usWeightClass", "usWidthClass",
+                   "unitsPerEm", "lowestRecPPEM"}
+
+
+def derived_out_of_range(ref):
+    """integral fields whose attribute is ABSENT and whose documented fallback (derived from
+    the explicit values) cannot be stored in the field - filled into the witness of a failed
+    compile"""
+    out = []
+    for E in ref.table_fields(vertical_ok=True):
+        if E.how != "fallback" or E.ok is None or E.field in ("panose", "achVendID"):
+            continue
+        lo, hi = (0, 65535) if E.field in UNSIGNED_FIELDS else (-32768, 32767)
+        vals = [v for v in E.ok if isinstance(v, int)]
+        if vals and E.table in ("hhea", "vhea", "post", "OS/2") and all(
+                not lo <= v <= hi for v in vals):
+            out.append({"table": E.table, "field": E.field, "attr": E.attr, "derived": vals[:3]})
+    return out
+
+
 def _epoch():
     v = os.environ.get("SOURCE_DATE_EPOCH")
     return int(v) if v else None
@@ -636,6 +677,7 @@ def run_static(case):
         ctx.bad("compile_exception", exc=type(e).__name__, message=str(e)[:300],
                 compile=case["compile"],
                 cff_unencodable=cff_unencodable_strings(ref) if otf else {},
+                derived_out_of_range=derived_out_of_range(ref),
                 trace=traceback.format_exc()[-2500:])
         return _result(ctx, False)
     ctx.bump("fonts_reloaded")
@@ -736,6 +778,9 @@ def classify(v, case):
         if (case.get("kind") == "static" and case.get("compile") == "otf"
                 and d.get("exc") == "UnicodeEncodeError" and d.get("cff_unencodable")):
             return "cff_topdict_string_unencodable"
+        if (case.get("kind") == "static" and "does not fit in format" in (d.get("message") or "")
+                and any(x["field"] in d["message"] for x in d.get("derived_out_of_range") or [])):
+            return "derived_fallback_out_of_field_range"
         return None
     if mech in ("name_record_mismatch", "fallback_mismatch", "explicit_value_lost"):
         if (case.get("kind") == "variable" and d.get("table") == "name"
